@@ -256,7 +256,9 @@ def random_cases(prop, tier, seed, mods):
             T['nodes'][-1]['a']['lab'] = ['T']
     for k in range(n):
         T = treeio.random_tree(rnd, nmax=8 if tier == 'quick' else 11, maxcons=6,
-                               labels=('S', 'NP', 'VP', 'NP-1'), edges=('--', 'HD', 'NK'),
+                               labels=('S', 'NP', 'VP', 'NP-1') if prop not in ('C15', 'C05', 'C04')
+                               else ('S', 'NP', 'VP', 'NP-1', 'CO', 'DL', 'PRN', 'INTJ', 'PP', 'FRAG'),
+                               edges=('--', 'HD', 'NK'),
                                words=wordf, tags=('T', 'PRELS'), tokedges=('--', 'HD', 'NK'), chain=0.4)
         for x in T['nodes']:
             x['a']['lab'] = list(x['a']['lab'])
@@ -268,6 +270,32 @@ def random_cases(prop, tier, seed, mods):
             prog = [o for o in prog if o['name'] not in ('collapse_unary_chains', 'uncollapse_unary_chains')]
         out.append(ft.record_case('R-%05d' % k, T, prog, mods, seed + k, origin='random'))
     return out
+
+
+def suite_cases():
+    """the repository's own tests, run under the recorder plugin: every transformation call they make"""
+    import os
+    import subprocess
+    import tempfile
+    fd, out = tempfile.mkstemp(prefix='vf_suite_', suffix='.jsonl')
+    os.close(fd)
+    env = dict(os.environ, PYTHONPATH=core.VERIF + os.pathsep + core.REPO, VERIF_RECORD_FILE=out,
+               PYTHONDONTWRITEBYTECODE='1')
+    p = subprocess.run([core.VENV_PY, '-m', 'pytest', '-q', '-p', 'no:cacheprovider', '-p', 'harness.recorder_plugin',
+                        'tests/test_trees.py'], cwd=core.REPO, env=env, stdout=subprocess.PIPE, stderr=subprocess.STDOUT)
+    cases = []
+    try:
+        with open(out) as f:
+            for ln in f:
+                cases.append(json.loads(ln))
+    finally:
+        os.unlink(out)
+        try:
+            os.unlink(os.path.join(core.REPO, 'tempdest_lopar.lex'))
+        except OSError:
+            pass
+    tail = p.stdout.decode('utf-8', 'replace').strip().splitlines()[-1:] or ['']
+    return cases, tail[0]
 
 
 def run(prop, tier, seed, replay=None):
@@ -307,6 +335,12 @@ def run(prop, tier, seed, replay=None):
                                     for k, c in enumerate(skel)]))
             rep.exhaustive = True
             cases.extend(random_cases(prop, tier, seed, mods))
+            if tier == 'thorough' or prop == 'C04':
+                sc, summary = suite_cases()
+                for i, c in enumerate(sc):
+                    c['id'] = 'SUITE-%05d-%s' % (i, c['events'][0]['a'])
+                cases.extend(sc)
+                rep.extra['suite_recorder'] = {'recorded_calls': len(sc), 'pytest': summary}
         byid = {c['id']: c for c in cases}
         verdicts, wall = core.validate_traces(w, 'TTgen', cases, header={'config': {'rules': cfgc['rules']}},
                                               cfg=TRACE_CFG, chunk=800)
